@@ -108,7 +108,12 @@ Inductive number_text : list N -> num -> Prop :=
     number_text (sg ++ m ++ te) (nearest neg ids fds e)
 (* beyond the documentation: the words nan and inf in any letter case (no sign) *)
 | X_N_nan t : keyword KW_NAN t -> number_text t (NFloat F_NAN)
-| X_N_inf t : keyword KW_INF t -> number_text t (NFloat F_INF).
+| X_N_inf t : keyword KW_INF t -> number_text t (NFloat F_INF)
+(* and (since the fix e1187a7 of the crate) a minus sign directly followed by the word inf in any letter case: negative
+   infinity.  No README line documents it (hence X_), but it is the text Display prints for a literal that overflows
+   downwards (`-1e999`), so the language is closed under printing on these literals.  Neither `-infinity`, `- inf` nor
+   `-nan` / `+inf` / `+nan` is a literal. *)
+| X_N_neg_inf t : keyword KW_INF t -> number_text (45 :: t) (NFloat F_NEG_INF).
 
 Inductive literal_text : list N -> pvalue -> Prop :=
 | L_null : literal_text [110; 117; 108; 108] PVNull
